@@ -1,7 +1,8 @@
 #!/usr/bin/env python3
 """Summarise mutsweep results: counts per outcome, survivors per file."""
 import collections, json, sys
-path = sys.argv[1] if len(sys.argv) > 1 else '/verif/mutsweep/results.jsonl'
+args = [a for a in sys.argv[1:] if not a.startswith('-')]
+path = args[0] if args else '/verif/mutsweep/results.jsonl'
 rs = [json.loads(l) for l in open(path) if l.strip()]
 c = collections.Counter(r['outcome'] for r in rs)
 print(len(rs), 'mutants evaluated')
